@@ -561,3 +561,24 @@ func EncDouble(p *Node, decoyFirst bool) *Node {
 	}
 	return &Node{Kind: kEnc, Cid: cidCounter, St: 1, Raw: elToString(doc.Root())}
 }
+
+// WrapKeyInfoCert re-lays the X509Certificate text of the KeyInfo with line breaks and indentation
+// (white space inside base64 is not significant; the abstract signature is unchanged).
+func (s *Node) WrapKeyInfoCert() {
+	_, root := sigDoc(s)
+	x := root.FindElement("./KeyInfo/X509Data/X509Certificate")
+	if x == nil {
+		return
+	}
+	t := strings.Join(strings.Fields(x.Text()), "")
+	var sb strings.Builder
+	for i := 0; i < len(t); i += 60 {
+		j := i + 60
+		if j > len(t) {
+			j = len(t)
+		}
+		sb.WriteString("\n\t  " + t[i:j])
+	}
+	x.SetText(sb.String() + "\n")
+	s.Raw = elToString(root)
+}
